@@ -198,7 +198,10 @@ func c16Site(o *origin, seedv int64, idx, n int, hostBase int) []string {
 		var assets []string
 		for a := 0; a < 2+rng.Intn(5); a++ {
 			uri := fmt.Sprintf("/x/%d-%d", a, rng.Int63n(1<<40))
-			switch rng.Intn(9) {
+			switch rng.Intn(10) {
+			case 9: // a large text body whose connection dies after the spool threshold
+				o.set(h, uri+".txt", &route{Status: 200, Headers: map[string]string{"Content-Type": "text/plain"}, Body: append(append([]byte(nil), big...), big[:1<<20]...), TruncateAt: 2<<20 + 50000 + rng.Intn(100000), Tag: "big-text-truncated"})
+				assets = append(assets, uri+".txt")
 			case 0:
 				o.set(h, uri+".txt", &route{Status: 200, Headers: map[string]string{"Content-Type": "text/plain"}, Body: big, Tag: "big-text"})
 				assets = append(assets, uri+".txt")
